@@ -25,6 +25,22 @@ for n in (1, 2, 4):
                     branch_hook="v_hook", unwind=n + 4, spec_unwind=162, split=True, search=3000, native_cflags=COV,
                     extra=["--no-standard-checks"], checks=[],
                     fn=["zzAddMod", "zzSubMod", "zzAddWMod", "zzSubWMod", "zzNegMod", "zzDoubleMod", "zzHalfMod"]))
+BELT = ["src/crypto/belt/belt_%s.c" % m for m in ("mac", "hash", "dwp", "che", "ctr", "kwp", "wbl", "lcl", "compr", "block")] + \
+       ["src/math/pp/pp_mul.c", "src/math/pp/pp_red.c", "src/math/pp/pp_etc.c", "src/math/ww.c", "src/core/mem.c", "src/core/util.c",
+        "src/core/blob.c", "src/core/u32.c", "src/core/u64.c", "src/core/u16.c", "src/core/word.c"]
+UF = {"crypto/belt/belt_block.c": ["beltBlockEncr", "beltBlockEncr2", "beltBlockEncr3", "beltBlockDecr", "beltBlockDecr2", "beltBlockDecr3"],
+      "crypto/belt/belt_lcl.c": ["beltPolyMul"]}
+for ent, fns in (("h_ct_stepv", ["beltMACStepV", "beltMACStepV2", "beltHashStepV", "beltHashStepV2"]),
+                 ("h_ct_aead", ["beltDWPStepV", "beltCHEStepV"]), ("h_ct_kwp", ["beltKWPUnwrap"])):
+    GROUPS.append(G("ct_belt." + ent[5:], "harness/C14/ct_belt.c", ent, BELT, stubs=["stubs/belt_uf.c"], strip=UF, level="B",
+                    bound="data length 21 octets / token 32 octets; values fully symbolic", ndebug=True, branch_hook="v_hook",
+                    unwind=70, spec_unwind=162, split=True, search=2000, native_cflags=COV, extra=["--no-standard-checks"], checks=[],
+                    timeout=1500, fn=fns, tier="thorough", required=False, mem_gb=24,
+                    note="attempted: the CBMC query exhausts 8 GB (measured)"))
+    GROUPS.append(G("ct_belt." + ent[5:] + ".search", "harness/C14/ct_belt.c", ent, BELT, level="N", backend="native", search=60000,
+                    native_cflags=COV, ndebug=True, fn=fns,
+                    note="native stand-in: basic-block traces (gcc -O1, -fsanitize-coverage=trace-pc) of two runs on independent random "
+                         "secrets must be identical; NOT proof"))
 GROUPS.append(G("ct_negative_control", "harness/C14/ct_math.c", "h_ct_cmp", MATH, defs=["N=2", "NEG=1"], level="S", ndebug=True,
                 branch_hook="v_hook", unwind=24, spec_unwind=162, neg_control=True, native=False,
                 extra=["--no-standard-checks"], checks=[], note="FAST wwCmp must fail the regularity obligation"))
